@@ -112,6 +112,8 @@ def run(out, tier, seed):
             cases.append(dict(c, id=len(cases), mode="probe"))
         if c["src"] != "tlc-exhaustive" or rng.random() < 0.2:
             cases.append(dict(c, id=len(cases), mode="api"))
+        if c["src"] != "tlc-exhaustive" or rng.random() < 0.2:
+            cases.append(dict(c, id=len(cases), mode="ovprobe"))
     traces = L.run_histories(cases, work, driver="harness.drivers.gen_driver")
     fails, results = L.validate(traces, work, spec="TraceGen")
     for i, r in enumerate(results):
